@@ -44,6 +44,71 @@ theorem select_eq_spec (rx : List Char → List Char → Bool) (db : DB) (q : Qu
   · rw [← runJoins_eq_nestedJoins]; exact hsel
   · rw [hres]; exact hrows
 
+/-! ### planning -/
+
+/-- "the relations required by its projection and condition (connected through at most one linking
+relation)": whenever the planner answers (any schema with distinct relation names),
+* the join order is valid: every join but the first has a column named like a key of a relation
+  joined before it (`validPlan`);
+* every requested column is requested from its relation in the plan, every required relation
+  (`from` clause, projection, condition) exists and is planned with all its key columns;
+* every other planned relation is a linking relation: not required, more than one key, planned with
+  all its keys; and there are fewer linking relations than key components of the required
+  relations — each one closed at least one gap ("at most one linking relation per gap"). -/
+theorem planJoins_valid (db : DB) (hnd : (db.map (·.name)).Nodup) (projection condFs : List QName)
+    (rels : List String) (plan : Plan) (h : planJoins db projection condFs rels = .ok plan) :
+    validPlan db plan.joins = true ∧
+    (∀ q ∈ projection ++ condFs, Covered plan.joins q.1 q.2) ∧
+    (∀ r ∈ requiredRels projection condFs rels, (db.rel? r).isSome ∧
+        ∀ k ∈ keyNamesOf db r, Covered plan.joins r k) ∧
+    ∃ pivots : List String,
+      (∀ p ∈ plan.joins, p.1 ∈ requiredRels projection condFs rels ++ pivots) ∧
+      (∀ r ∈ pivots, r ∉ requiredRels projection condFs rels ∧ 1 < (keyNamesOf db r).length ∧
+        ∀ k ∈ keyNamesOf db r, Covered plan.joins r k) ∧
+      (pivots ≠ [] → pivots.length + 1 ≤ (components db (requiredRels projection condFs rels)).length) :=
+  planJoins_valid_aux db hnd projection condFs rels plan h
+
+/-- `select_eq_spec` with the plan characterised: an answer of `select` is the filtered, projected
+nested-loop join over a valid join order of the required relations plus linking relations. -/
+theorem select_plan_valid (rx : List Char → List Char → Bool) (db : DB) (q : Query) (res : Result)
+    (h : select rx db q = .ok res) :
+    ∃ proj cond plan sel, resolveProj db q = .ok proj ∧ resolveQCond db q = .ok cond ∧
+      planJoins db proj (condFieldsOpt cond) q.rels = .ok plan ∧
+      validPlan db plan.joins = true ∧
+      (∀ r ∈ requiredRels proj (condFieldsOpt cond) q.rels, ∀ k ∈ keyNamesOf db r, Covered plan.joins r k) ∧
+      (∀ qn ∈ proj ++ condFieldsOpt cond, Covered plan.joins qn.1 qn.2) ∧
+      nestedJoins db Sel.empty plan.joins = .ok sel ∧ finish rx sel proj cond = .ok res.rows := by
+  obtain ⟨proj, cond, plan, sel, rows, hwf, hproj, hcond, hplan, hsel, hrows, hres⟩ := select_inv h
+  have hnd : (db.map (·.name)).Nodup := by
+    simp only [DB.wf, Bool.and_eq_true, decide_eq_true_eq] at hwf
+    exact hwf.1
+  obtain ⟨v1, v2, v3, _⟩ := planJoins_valid db hnd proj (condFieldsOpt cond) q.rels plan hplan
+  refine ⟨proj, cond, plan, sel, hproj, hcond, hplan, v1, fun r hr => (v3 r hr).2, v2, ?_, ?_⟩
+  · rw [← runJoins_eq_nestedJoins]; exact hsel
+  · rw [hres]; exact hrows
+
+/-- the tree condition as a decidable predicate; the TSDB core schema satisfies it -/
+example : treeLinked coreSchema = true := by decide
+
+/-- existence on the core schema, for every non-empty set of required relations (all 15): the plan
+exists, is a valid order, contains every required relation and at most one linking relation. -/
+theorem core_schema_plans_exist :
+    ∀ req ∈ subsets ["item", "run", "parse", "result"], req ≠ [] → planOK coreSchema req = true := by
+  decide
+
+/-- FULL STATEMENT (not proved, and false as it stands): "for every tree-linked schema and every
+non-empty set of required relations the plan exists".  Tree-linkedness alone does not give a plan:
+relations two links apart (item and a relation below result) cannot be joined through one linking
+relation, and the planner answers `TSQLError` — which is what the property's "(connected through at
+most one linking relation)" excludes.  Existence is proved for the core schema
+(`core_schema_plans_exist`) and otherwise observed through the correspondence. -/
+theorem tree_linked_without_plan :
+    let db : DB := coreSchema.map (fun r => if r.name = "result"
+        then { r with fields := r.fields.map (fun f => if f.name = "result-id" then { f with isKey := true } else f) }
+        else r) ++ [{ name := "edge", fields := [⟨"result-id", .integer, true⟩, ⟨"e-lab", .string, false⟩], rows := [] }]
+    treeLinked db = true ∧ (planJoins db [] [] ["item", "edge"]).toOption.isNone = true := by
+  decide
+
 /-- the main clause, soundness for any number of relations, with no index or plan left in the
 statement: every row that `select` returns is justified by witness rows `w` — one stored row of
 each relation involved — such that (a) the condition holds when each comparison `n.c op lit` is
